@@ -21,9 +21,12 @@ def data_lengths(P, L=0):
     small = min([x for x in (L, P) if x] or [0])
     cap = min(CAP, 3000 * (small - 6)) if small else CAP
     if P == 0:
-        return [None, 1, 1000, cap]
+        return [None, 1, 1000, cap, -500]
     f = P - 6
     out = [None]
+    if 100 <= f <= 70000:
+        # (negative: no data set, but a command set with that many Offending Element tags - longer than one fragment)
+        out.append(-(f // 4 + 50))
     for n in (1, f - 1, f, f + 1, 3 * f + 1):
         if n >= 1:
             out.append(min(n, cap))
@@ -42,7 +45,7 @@ def check_announced(role, L, A, case):
                         '"unlimited")' % (role, L, A), case)
 
 
-def check_sent(role, rec, P, data, case):
+def check_sent(role, rec, P, data, case, tags=0):
     if rec['kind'] != 'msg' or not rec['ok']:
         raise Violation('C10:not-a-message:%s' % role, 'send produced %r' % (rec.get('spec'),), case)
     heads = [h for _, h, _ in rec['frags']]
@@ -62,15 +65,35 @@ def check_sent(role, rec, P, data, case):
         raise Violation('C10:command-broken:%s' % role, rec['defects'][0], case)
     if rec['fields'].get(0x0100) != 0x8020:
         raise Violation('C10:command-broken:%s' % role, 'command field %r' % (rec['fields'].get(0x0100),), case)
+    if tags:
+        got = rec['fields'].get(0x0901)
+        if isinstance(got, int):
+            got = [got]
+        if list(got or ()) != big_tags(tags):
+            raise Violation('C10:command-broken:%s' % role, 'command set with %d Offending Element tags: %s arrived'
+                            % (tags, 'none' if got is None else len(got)), case)
 
 
-def make_msg(data, as_file=False):
+def big_tags(n):
+    return [0x00100010 + 0x10000 * (k % 60000) for k in range(n)]
+
+
+def payload(n, salt):
+    """Data-set bytes for one entry of `lengths` (None and negative entries: no data set)."""
+    return None if n is None or n < 0 else dg.patterned(n, salt)
+
+
+def make_msg(data, as_file=False, tags=0):
     import io
     from pynetdicom2 import dimsemessages
     msg = dimsemessages.CFindRSPMessage()
     msg.sop_class_uid = SOP
     msg.message_id_being_responded_to = 3
     msg.status = 0xFF00
+    if tags:
+        # a failure response naming the elements in error: the only unbounded part of a command set
+        msg.status = 0xA900
+        msg.command_set.OffendingElement = big_tags(tags)
     if as_file and data:
         if len(data) % 2:
             msg.data_set = io.BytesIO(b'\x5A' * 192 + data)      # positioned behind a header of its own
@@ -86,13 +109,13 @@ def run_acceptor_case(L, P, lengths, via_hook=False, entity='AE'):
     """via_hook: the entity is configured with 65536 and its on_association_request hook gives this association
     its own limit L (a per-peer limit, set on the association object the hook receives)."""
     case = {'role': 'acceptor', 'L': L, 'P': P, 'lengths': lengths, 'via_hook': via_hook, 'entity': entity}
-    datas = [None if n is None else dg.patterned(n, 1) for n in lengths]
+    datas = [payload(n, 1) for n in lengths]
     sent_records = []
 
     def service(asce, ctx, msg):
         i = msg.message_id
         before = len(asce.dul.sent)
-        asce.send(make_msg(datas[i], as_file=i % 2 == 1), ctx.id)
+        asce.send(make_msg(datas[i], as_file=i % 2 == 1, tags=-min(lengths[i] or 0, 0)), ctx.id)
         sent_records.append((i, asce.dul.sent[before:]))
     service.sop_classes = [SOP]
     if via_hook:
@@ -139,7 +162,7 @@ def run_acceptor_case(L, P, lengths, via_hook=False, entity='AE'):
     for i, recs in sent_records:
         if len(recs) != 1:
             raise Violation('C10:nothing-sent:acceptor', 'send queued %d primitives' % len(recs), case)
-        check_sent('acceptor', recs[0], P, datas[i], case)
+        check_sent('acceptor', recs[0], P, datas[i], case, tags=-min(lengths[i] or 0, 0))
     return subs[0]['max']
 
 
@@ -169,7 +192,7 @@ def run_requestor_case(L, P, lengths, entity='ClientAE'):
     def plan(dul):
         dul.responder = responder
     fac = fd.Factory([plan])
-    datas = [None if n is None else dg.patterned(n, 2) for n in lengths]
+    datas = [payload(n, 2) for n in lengths]
     try:
         with fd.installed(fac):
             with ae.request_association({'aet': 'SRV', 'address': 'peer.example', 'port': 104}) as assoc:
@@ -184,11 +207,11 @@ def run_requestor_case(L, P, lengths, entity='ClientAE'):
                 check_announced('requestor', L, subs[0]['max'], case)
                 for di, d in enumerate(datas):
                     before = len(dul.sent)
-                    assoc.send(make_msg(d, as_file=di % 2 == 0), 1)
+                    assoc.send(make_msg(d, as_file=di % 2 == 0, tags=-min(lengths[di] or 0, 0)), 1)
                     recs = dul.sent[before:]
                     if len(recs) != 1:
                         raise Violation('C10:nothing-sent:requestor', 'send queued %d primitives' % len(recs), case)
-                    check_sent('requestor', recs[0], P, d, case)
+                    check_sent('requestor', recs[0], P, d, case, tags=-min(lengths[di] or 0, 0))
     except Violation:
         raise
     except Exception as exc:
@@ -280,7 +303,7 @@ def run_pairs(ctx, job):
 def run_random(ctx, n):
     vals = st.one_of(st.sampled_from(GRID), st.integers(7, 70000), st.integers(0, 2 ** 32 - 1))
     strat = st.tuples(vals, vals, st.sampled_from(['acceptor', 'requestor']),
-                      st.lists(st.one_of(st.none(), st.integers(1, 5000)), min_size=1, max_size=3))
+                      st.lists(st.one_of(st.none(), st.integers(1, 5000), st.integers(-6000, -1)), min_size=1, max_size=3))
 
     def fn(value):
         L, P, role, lengths = value
